@@ -233,6 +233,28 @@ def num(x):
     return repr(float(x))
 
 
+def fortran_num(x, k):
+    '''A Fortran spelling of x (MCNP reads 5.0+0, 5.0d0, 50.0-1), chosen by k;
+    only for values whose decimal spelling is exact.'''
+    if isinstance(x, str):
+        return x
+    x = float(x)
+    style = k % 4
+    if style == 0 or x != x or abs(x) > 1e6:
+        return num(x)
+    base = repr(x)
+    if 'e' in base or 'inf' in base:
+        return num(x)
+    if style == 1:
+        return base + '+0'
+    if style == 2:
+        return base + 'd0'
+    ten = repr(x * 10.0)
+    if 'e' in ten or float(ten) / 10.0 != x:
+        return base + 'D+0'
+    return ten + '-1'
+
+
 def wrap(card, width=76):
     words = card.split(' ')
     lines, cur = [], ''
@@ -267,14 +289,20 @@ def render(deck):
     for cell in deck['cells']:
         out.append(wrap(cell_text(cell)))
     out.append('')
+    fort = deck.get('fortran')
+    count = [0]
+
+    def spell(v):
+        count[0] += 1
+        return fortran_num(v, count[0]) if fort else num(v)
     for surf in deck['surfs']:
         tr = f' {surf["tr"]}' if surf.get('tr') is not None else ''
         out.append(wrap(f'{surf["id"]}{tr} {surf["mn"]} '
-                        + ' '.join(num(v) for v in surf['params'])))
+                        + ' '.join(spell(v) for v in surf['params'])))
     out.append('')
     for tr in deck['trs']:
         out.append(wrap(f'{"*" if tr["star"] else ""}tr{tr["id"]} '
-                        + ' '.join(num(v) for v in tr['entries'])))
+                        + ' '.join(spell(v) for v in tr['entries'])))
     for name, toks in deck['impcards']:
         out.append(wrap(f'{name} ' + ' '.join(toks)))
     for number, toks in deck['mats']:
@@ -304,10 +332,17 @@ def opt_tokens(option):
 
 
 def py_float_or_none(tok):
+    '''Value of a numeric token: float(), else the harness's own reading of
+    the Fortran spellings MCNP accepts (impl.mcnp_float, written from the
+    manual) -- not the converter's to_float.'''
     try:
         val = float(tok)
     except ValueError:
-        return None
+        import impl
+        try:
+            val = impl.mcnp_float(tok)
+        except ValueError:
+            return None
     if val != val or val in (float('inf'), float('-inf')):
         return None
     return val
@@ -638,6 +673,7 @@ def gen_valid_deck(rng, features=None):
                 cell['opts'] = (cell['opts'] + f' imp:n={cell["imp"]}').strip()
     deck['cells'] = cells
     deck['features'] = sorted(features)
+    deck['fortran'] = rng.random() < 0.3
     return deck
 
 
@@ -717,7 +753,8 @@ def f_inline_fill_m(deck, rng, star=False):
         d = _clone(deck)
         cell = d['cells'][k]
         univ = re.search(r'fill=(\d+)', cell['opts']).group(1)
-        entries = (_angles12(rng) if star else _twelve(rng)) + [-1]
+        entries = (_angles12(rng) if star else _twelve(rng)) + [
+            rng.choice([-1, -1, '-1+0', '-1.0d0', '-10.0-1'])]
         _set_opt(cell, FILL_N_RE, ('*' if star else '') + f'fill={univ} ('
                  + ' '.join(num(v) for v in entries) + ')')
         out.append((d, f'cell {cell["id"]}'))
@@ -749,7 +786,8 @@ def f_inline_trcl_m(deck, rng, star=False):
     for k in _trcl_candidates(deck)[:3]:
         d = _clone(deck)
         cell = d['cells'][k]
-        entries = (_angles12(rng) if star else _twelve(rng)) + [-1]
+        entries = (_angles12(rng) if star else _twelve(rng)) + [
+            rng.choice([-1, -1, '-1+0', '-1.0d0', '-10.0-1'])]
         text = ('*' if star else '') + 'trcl=(' + ' '.join(
             num(v) for v in entries) + ')'
         if 'trcl' in cell['opts']:
@@ -773,7 +811,8 @@ def f_like_trcl_m(deck, rng):
         d = _clone(deck)
         cell = d['cells'][k]
         star = rng.random() < 0.5
-        entries = (_angles12(rng) if star else _twelve(rng)) + [-1]
+        entries = (_angles12(rng) if star else _twelve(rng)) + [
+            rng.choice([-1, -1, '-1+0', '-1.0d0', '-10.0-1'])]
         cell['opts'] = ('*' if star else '') + 'trcl=(' + ' '.join(
             num(v) for v in entries) + ')'
         out.append((d, f'cell {cell["id"]} like {cell["like"]}'))
